@@ -229,6 +229,45 @@ def run_playback(scr, unit, h, tests):
         open(hfile, "w").write(orig)
 
 
+
+# ------------------------------------------------------------------------------------------------
+# native bounded stand-ins (labelled bounded, never counted as proved)
+# ------------------------------------------------------------------------------------------------
+def run_native(scr, unit, tier, seed):
+    src = os.path.join(VERIF, "contracts", unit["test_file"])
+    name = "verif_" + os.path.splitext(os.path.basename(unit["test_file"]))[0]
+    dst_dir = os.path.join(scr.ws, unit["crate_dir"], "tests")
+    os.makedirs(dst_dir, exist_ok=True)
+    dst = os.path.join(dst_dir, name + ".rs")
+    new = open(src).read()
+    if not os.path.exists(dst) or open(dst).read() != new:
+        open(dst, "w").write(new)
+    cmd = ["cargo", "test", "-p", unit["package"], "--offline", "--release", "--test", name, "--", "--nocapture", "--test-threads", "1"]
+    env = dict(ENV)
+    env["VERIF_SEED"] = str(seed)
+    env["VERIF_TIER"] = tier
+    # optimised build, but with the arithmetic-overflow and debug assertions of a debug build
+    env["CARGO_PROFILE_RELEASE_OVERFLOW_CHECKS"] = "true"
+    env["CARGO_PROFILE_RELEASE_DEBUG_ASSERTIONS"] = "true"
+    env["CARGO_PROFILE_RELEASE_LTO"] = "off"
+    env["CARGO_PROFILE_RELEASE_CODEGEN_UNITS"] = "16"
+    t0 = time.time()
+    try:
+        p = subprocess.run(cmd, cwd=scr.ws, env=env, stdout=subprocess.PIPE, stderr=subprocess.STDOUT, text=True,
+                           timeout=unit.get("timeout", 1200))
+        out, timed_out, rc = p.stdout, False, p.returncode
+    except subprocess.TimeoutExpired as e:
+        out = e.stdout.decode(errors="replace") if isinstance(e.stdout, bytes) else (e.stdout or "")
+        timed_out, rc = True, -1
+    res = {"unit": unit["unit"], "cmd": " ".join(cmd), "wall_s": round(time.time() - t0, 1), "timed_out": timed_out,
+           "rc": rc, "bound": unit["bounded"], "functions": unit.get("fn", []), "clause": unit.get("clause", ""),
+           "results": [dict(re.findall(r"(\w+)=(\S+)", l[l.index("NB-RESULT"):])) for l in out.splitlines() if "NB-RESULT" in l],
+           "violations": sorted({l[l.index("NB-VIOLATION"):].strip() for l in out.splitlines() if "NB-VIOLATION" in l}),
+           "compile_error": bool(re.search(r"^error(\[E\d+\])?:", out, re.M)) and "test result:" not in out,
+           "out_tail": out[-5000:]}
+    res["panics"] = re.findall(r"panicked at ([^\n]*\n[^\n]*)", out)[:5] if rc != 0 and not res["violations"] else []
+    return res
+
 # ------------------------------------------------------------------------------------------------
 # known findings
 # ------------------------------------------------------------------------------------------------
@@ -287,14 +326,16 @@ def check(prop, tier):
     verus_units = [u for u in units if u["engine"] == "verus"]
     sel = select(kani_units, prop, tier)
     vsel = [u for u in verus_units if prop in u["props"]]
+    nsel = [u for u in units if u["engine"] == "native" and prop in u["props"]]
     meta = registry.PROPS.get(prop)
-    if meta is None or (not sel and not vsel):
+    if meta is None or (not sel and not vsel and not nsel):
         log("UNDECIDED property=%s reason=no-check-registered" % prop)
         return 2
     known = load_known()
     scr = Scratch(prop)
-    results, vresults = [], []
+    results, vresults, nresults = [], [], []
     undecided, violations, known_hits = [], [], []
+    nviol = []
     try:
         # ---------------- Kani ----------------
         if sel:
@@ -384,6 +425,20 @@ def check(prop, tier):
                 elif vr["status"] == "failed":
                     violations.append((u, None, vr, vr["failed_obligations"]))
 
+        # ---------------- native bounded stand-ins ----------------
+        for u in nsel:
+            nr = run_native(scr, u, tier, seed)
+            nresults.append(nr)
+            log("[native] %-40s rc=%s results=%s violations=%d %.1fs" % (u["unit"], nr["rc"], nr["results"], len(nr["violations"]), nr["wall_s"]))
+            if nr["timed_out"]:
+                undecided.append("native unit %s: timeout" % u["unit"])
+            elif nr["compile_error"]:
+                undecided.append("native unit %s: does not compile against the current tree\n%s" % (u["unit"], nr["out_tail"][-1500:]))
+            elif nr["rc"] != 0:
+                nviol.append((u, nr))
+            elif not nr["results"]:
+                undecided.append("native unit %s: vacuity guard: no NB-RESULT line" % u["unit"])
+
         # ---------------- report ----------------
         rc = 0
         printed = set()
@@ -426,26 +481,36 @@ def check(prop, tier):
             for c in new:
                 log("  failed obligation: %s.%s.%s :: %s @ %s" % (prop, u["unit"], r["harness"], c["desc"], c["loc"]))
             rc = 1
+        for u, nr in nviol:
+            os.makedirs(rdir, exist_ok=True)
+            rpath = os.path.join(rdir, "native_%s.json" % u["unit"])
+            json.dump({"property": prop, "engine": "native-bounded", "unit": u["unit"], "bound": u["bounded"],
+                       "violations": nr["violations"], "panics": nr["panics"], "cmd": nr["cmd"], "seed": seed,
+                       "test_file": u["test_file"], "output_tail": nr["out_tail"]}, open(rpath, "w"), indent=1)
+            log("VIOLATION property=%s replay=%s" % (prop, rpath))
+            for vline in (nr["violations"] or [x.replace("\n", " ") for x in nr["panics"]])[:5]:
+                log("  failed (bounded stand-in %s): %s" % (u["unit"], vline[:300]))
+            rc = 1
         if undecided:
             for m in undecided:
                 log("UNDECIDED property=%s obligation=%s" % (prop, m))
             if rc == 0:
                 rc = 2
-        ev = build_evidence(prop, tier, seed, meta, results, vresults, known_hits, violations, undecided, time.time() - t0)
+        ev = build_evidence(prop, tier, seed, meta, results, vresults, known_hits, violations, undecided, time.time() - t0, nresults, nviol)
         write_evidence(prop, ev)
         log("[done] property=%s tier=%s rc=%d wall=%.1fs obligations=%d discharged=%d" % (
             prop, tier, rc, time.time() - t0, ev["coverage"].get("obligations", 0), ev["coverage"].get("discharged", 0)))
         return rc
     except Undecided as e:
         log("UNDECIDED property=%s reason=%s" % (prop, e))
-        ev = build_evidence(prop, tier, seed, meta, results, vresults, known_hits, violations, [str(e)], time.time() - t0)
+        ev = build_evidence(prop, tier, seed, meta, results, vresults, known_hits, violations, [str(e)], time.time() - t0, nresults, nviol)
         write_evidence(prop, ev)
         return 2
     finally:
         scr.cleanup()
 
 
-def build_evidence(prop, tier, seed, meta, results, vresults, known_hits, violations, undecided, wall):
+def build_evidence(prop, tier, seed, meta, results, vresults, known_hits, violations, undecided, wall, nresults=(), nviol=()):
     import registry
     normal = [r for r in results if not r.get("canary")]
     ok = lambda r: (not r["timed_out"]) and r["verdict"] == "SUCCESSFUL"
@@ -480,7 +545,10 @@ def build_evidence(prop, tier, seed, meta, results, vresults, known_hits, violat
         "bounded": [{"obligation": "%s.%s.%s" % (prop, r["unit"], r["harness"]), "bound": r["bounded"],
                      "status": "passed-within-bound" if ok(r) else ("known-finding" if r["harness"] in known_names else "failed"),
                      "cbmc_checks": r["checks"], "seconds": r["wall_s"], "clause": r["clause"]} for r in bnd],
-        "bounded_obligations": len(bnd),
+        "native_bounded_standins": [{"unit": n["unit"], "bound": n["bound"], "clause": n["clause"], "functions": n["functions"],
+                                     "results": n["results"], "status": "passed-within-bound" if n["rc"] == 0 else "failed",
+                                     "seconds": n["wall_s"], "cmd": n["cmd"]} for n in nresults],
+        "bounded_obligations": len(bnd) + len(nresults),
         "bounded_passed": len([r for r in bnd if ok(r)]),
         "canaries": [{"obligation": r["harness"], "must_fail": True, "failed_as_expected": r["verdict"] == "FAILED"}
                      for r in results if r.get("canary")],
@@ -494,7 +562,7 @@ def build_evidence(prop, tier, seed, meta, results, vresults, known_hits, violat
     }
     ev = {"property_id": prop, "tier": tier, "seed": seed, "level": level, "coverage": cov,
           "assumptions": trusted + meta.get("not_decided", []), "wall_s": round(wall, 1),
-          "violations": len(violations)}
+          "violations": len(violations) + len(nviol)}
     return ev
 
 
@@ -502,6 +570,18 @@ def replay(prop, path):
     """Re-run a recorded counterexample against the current /repo tree."""
     import registry
     rep = json.load(open(path))
+    if rep.get("engine") == "native-bounded":
+        unit = [u for u in registry.UNITS if u["unit"] == rep["unit"]][0]
+        scr = Scratch(prop + "-replay")
+        try:
+            nr = run_native(scr, unit, "quick", rep.get("seed", 0))
+            log(nr["out_tail"][-3000:])
+            if nr["rc"] != 0:
+                log("VIOLATION property=%s replay=%s" % (prop, path))
+                return 1
+            return 0
+        finally:
+            scr.cleanup()
     if rep.get("engine") != "kani" or not rep.get("playback_tests"):
         log("replay file carries no concrete input (obligation %s); verifier output:" % rep.get("obligation"))
         log(rep.get("verifier_output_tail", rep.get("verus_output", "")))
